@@ -1116,6 +1116,15 @@ static const uint8_t *unmarshal_one_fiber(
         janet_panic("fiber has incorrect stack setup");
     }
 
+    /* Only a finished fiber has no frames left */
+    int32_t fiber_status = (fiber_flags & JANET_FIBER_STATUS_MASK) >> JANET_FIBER_STATUS_OFFSET;
+    int fiber_resumable = !(fiber_status == JANET_STATUS_DEAD ||
+                            fiber_status == JANET_STATUS_ERROR ||
+                            (fiber_status >= JANET_STATUS_USER0 && fiber_status <= JANET_STATUS_USER4));
+    if (frame == 0 && fiber_resumable) {
+        janet_panic("fiber has no stack frames");
+    }
+
     /* Allocate stack memory */
     fiber->capacity = fiber_stacktop + 10;
     fiber->data = janet_malloc(sizeof(Janet) * fiber->capacity);
@@ -1165,6 +1174,27 @@ static const uint8_t *unmarshal_one_fiber(
         }
         if (pcdiff >= def->bytecode_length) {
             janet_panic("fiber stackframe has invalid pc");
+        }
+        /* A frame that is continued receives a value in the destination register of the instruction
+         * it stopped at, and goes on with the instruction after it. Every frame below the top one is
+         * continued that way when its callee returns; the top frame according to the fiber's flags. */
+        {
+            int is_top = (stack == frame);
+            int will_store = !is_top || !(fiber_flags & JANET_FIBER_RESUME_NO_USEVAL);
+            int will_skip = !is_top || !(fiber_flags & JANET_FIBER_RESUME_NO_SKIP);
+            uint32_t instr = def->bytecode[pcdiff];
+            if (is_top && !fiber_resumable) will_store = will_skip = 0;
+            if ((instr & 0x7F) == JOP_TAILCALL) will_store = will_skip = 0; /* implicit return */
+            if (will_store && (int32_t)((instr >> 8) & 0xFF) >= def->slotcount) {
+                janet_panic("fiber stackframe has invalid pc");
+            }
+            if (will_skip && pcdiff + 1 >= def->bytecode_length) {
+                janet_panic("fiber stackframe has invalid pc");
+            }
+        }
+        /* Returning from the bottom frame leaves the interpreter */
+        if (prevframe == 0) {
+            frameflags |= JANET_STACKFRAME_ENTRANCE;
         }
         if (prevframe > stack - (int32_t) JANET_FRAME_SIZE) {
             janet_panic("fiber stackframe does not align with previous frame");
